@@ -292,3 +292,115 @@ func VH_C16_message_in_proof(kind int) {
 	zzvrt.Cover("reached", true)
 	zzvrt.ObserveInt("level", pm.Level())
 }
+
+func vSpecCell(s *vSpecBits) *boc.Cell {
+	c := boc.NewCell()
+	for _, b := range s.b {
+		_ = c.WriteBit(b == 1)
+	}
+	return c
+}
+
+// A transaction cell laid out by hand from block.tlb (transaction$0111 ... with a storage-only
+// description, empty out-message dictionary and, optionally, an inbound external message): the hash
+// reported by Transaction.UnmarshalTLB is the representation hash of the source cell - without a hasher
+// and with a caching hasher -, the decoded scalar fields are the ones laid out, SourceBoc() parses back
+// to a cell with that hash (instances without an inbound message), and the inbound message decoded as part of the transaction (its cell is in
+// the hasher cache by then) reports the hash of its own cell.
+func VH_C16_transaction(withInMsg bool, status int) {
+	s := &vSpecBits{}
+	s.uint(7, 4)
+	var addr, prev [32]byte
+	for i := 0; i < 32; i++ {
+		addr[i] = zzvrt.NondetByte("addr")
+		s.uint(uint64(addr[i]), 8)
+	}
+	lt := zzvrt.NondetU64("lt")
+	s.uint(lt, 64)
+	for i := 0; i < 32; i++ {
+		prev[i] = zzvrt.NondetByte("prev")
+		s.uint(uint64(prev[i]), 8)
+	}
+	prevLt := zzvrt.NondetU64("prev-lt")
+	s.uint(prevLt, 64)
+	now := zzvrt.NondetU32("now")
+	s.uint(uint64(now), 32)
+	s.uint(0, 15)                                 // outmsg_cnt
+	st := uint64(status & 3) // orig_status (instance parameter)
+	s.uint(st, 2)
+	s.uint(2, 2) // end_status: active
+	fees := zzvrt.NondetByte("fees")
+	zzvrt.Assume(fees != 0)
+	s.uint(1, 4) // total_fees: Grams of one byte
+	s.uint(uint64(fees), 8)
+	s.uint(0, 1) // no extra currencies
+	root := vSpecCell(s)
+
+	msgs := &vSpecBits{}
+	var msgCell *boc.Cell
+	if withInMsg {
+		ms := &vSpecBits{}
+		m, _ := vArbMessage(1, 0, false, 0, ms)
+		msgCell = boc.NewCell()
+		zzvrt.Assert("message-encodes", Marshal(msgCell, m) == nil)
+		msgs.uint(1, 1)
+	} else {
+		msgs.uint(0, 1)
+	}
+	msgs.uint(0, 1) // out_msgs: empty dictionary
+	c1 := vSpecCell(msgs)
+	if withInMsg {
+		_ = c1.AddRef(msgCell)
+	}
+	_ = root.AddRef(c1)
+	upd := &vSpecBits{}
+	upd.uint(0x72, 8)
+	for i := 0; i < 64; i++ {
+		upd.uint(uint64(zzvrt.NondetByte("state-hash")), 8)
+	}
+	_ = root.AddRef(vSpecCell(upd))
+	descr := &vSpecBits{}
+	descr.uint(1, 4) // trans_storage$0001
+	descr.uint(0, 4) // storage_fees_collected: Grams 0
+	descr.uint(0, 1) // storage_fees_due: nothing
+	descr.uint(0, 1) // acst_unchanged$0
+	_ = root.AddRef(vSpecCell(descr))
+
+	want, herr := root.Hash256()
+	zzvrt.Assert("hash-ok", herr == nil)
+	for round := 0; round < 2; round++ {
+		root.ResetCounters()
+		var tx Transaction
+		var err error
+		if round == 0 {
+			err = Unmarshal(root, &tx)
+		} else {
+			err = NewDecoder().Unmarshal(root, &tx)
+		}
+		zzvrt.Assert("decode-ok", err == nil)
+		if err != nil {
+			return
+		}
+		zzvrt.Assert("identity-hash", tx.Hash() == Bits256(want))
+		zzvrt.Assert("scalar-fields", tx.AccountAddr == Bits256(addr) && tx.Lt == lt && tx.PrevTransHash == Bits256(prev) && tx.PrevTransLt == prevLt && tx.Now == now && tx.OutMsgCnt == 0)
+		zzvrt.Assert("end-status", tx.EndStatus == AccountActive)
+		zzvrt.Assert("description", tx.Description.SumType == "TransStorage")
+		zzvrt.Assert("in-msg-presence", tx.Msgs.InMsg.Exists == withInMsg)
+		if withInMsg && tx.Msgs.InMsg.Exists {
+			mh, _ := msgCell.Hash256()
+			zzvrt.Assert("in-msg-identity-hash", tx.Msgs.InMsg.Value.Value.Hash(false) == Bits256(mh))
+		}
+		if !withInMsg {
+			src, err := tx.SourceBoc()
+			zzvrt.Assert("source-boc-ok", err == nil)
+			cells, err := boc.DeserializeBoc(src)
+			zzvrt.Assert("source-boc-parses", err == nil && len(cells) == 1)
+			if err == nil && len(cells) == 1 {
+				h2, _ := cells[0].Hash256()
+				zzvrt.Assert("source-boc-is-the-transaction", h2 == want)
+			}
+		}
+	}
+	zzvrt.Cover("reached", true)
+	zzvrt.ObserveInt("bits", root.BitSize())
+}
